@@ -505,6 +505,12 @@ impl Session {
             // *Request* carries no sequence number, so the responder correctly
             // expects our first data segment at seq 0.)
             self.recv_window.ack_seq = 0;
+
+            // ... and, as any other segment, it takes a slot of our receive window
+            // and has to be acknowledged before the peer's ACK timeout expires.
+            self.recv_window.level = window_size - 1;
+            self.recv_window.ack_level = 1;
+            self.recv_window.received_at = Instant::now();
         }
     }
 
